@@ -31,6 +31,7 @@ def opInDomain : Op → Bool
       | some a => decide (a < modelNow)
       | none => true)
   | .setdel _ _ _ a => decide (0 < a) && decide (a ≤ MaxNanoTime)
+  | .pre _ to => decide (to ≤ MaxNanoTime)
   | _ => true
 
 /-- "older than now minus the retention period" for one timestamp -/
